@@ -602,6 +602,35 @@ class Runner:
         r0, e4 = call(gen.MAC, fX(X)[:, 0], fA(A))
         if e4 is not None or np.asarray(r0).shape != ((1, mA) if mA > 1 else ()) or np.abs(np.asarray(r0).reshape(1, mA) - M[:1]).max() > T:
             ctx.fail("oracle", "gen.MAC(x, A) with a 1-D first argument is not the first row of gen.MAC(X, A)", case, key="C18:MAC:1d-form")
+        # storage: the two sets as views of ONE parent buffer (interleaved columns, adjacent halves, overlapping windows) - the answer
+        # depends on the values of the shapes, not on where they are stored
+        Xc, Ac = fX(X), fA(A)
+        if Xc.ndim == 2 and Ac.ndim == 2:
+            par = np.empty((X.shape[0], mX + mA), dtype=np.result_type(Xc.dtype, Ac.dtype))
+            views = []
+            if mX == mA:
+                par[:, 0::2], par[:, 1::2] = Xc, Ac
+                views.append(("interleaved columns of one buffer", par[:, 0::2], par[:, 1::2], par.copy()))
+            par2 = np.empty_like(par)
+            par2[:, :mX], par2[:, mX:] = Xc, Ac
+            views.append(("adjacent column blocks of one buffer", par2[:, :mX], par2[:, mX:], par2.copy()))
+            for what, vx, va, keep in views:
+                if vx.dtype != Xc.dtype or va.dtype != Ac.dtype:
+                    continue  # the common dtype would change the values: not the same call
+                Mv, e5 = call_plain(gen.MAC, vx, va)
+                if e5 is not None or np.asarray(Mv).reshape(mX, mA).shape != (mX, mA) or not finite(Mv) or np.abs(np.asarray(Mv).reshape(mX, mA) - M).max() > T:
+                    ctx.fail("oracle", "gen.MAC of two sets stored as %s differs from gen.MAC of the same values in separate arrays" % what,
+                             case, key="C18:MAC:shared-storage")
+                    break
+            if mX == mA and mX > 1 and X.shape == A.shape:
+                # overlapping windows of one table: MAC(P[:, :-1], P[:, 1:]) against the pairwise definition
+                tab = np.concatenate([Xc.astype(par.dtype), Ac.astype(par.dtype)[:, -1:]], axis=1)
+                w1, w2 = tab[:, :-1], tab[:, 1:]
+                Mo, e6 = call_plain(gen.MAC, w1, w2)
+                Do = np.array([[abs(np.vdot(w1[:, i], w2[:, j])) ** 2 / (np.vdot(w1[:, i], w1[:, i]).real * np.vdot(w2[:, j], w2[:, j]).real)
+                                for j in range(mX)] for i in range(mX)]) if bool(w1.any(axis=0).all() and w2.any(axis=0).all()) else None
+                if Do is not None and np.isfinite(Do).all() and (e6 is not None or np.asarray(Mo).shape != (mX, mX) or np.abs(np.asarray(Mo) - Do).max() > max(T, 1e-6 if low else 0)):
+                    ctx.fail("oracle", "gen.MAC of two overlapping column windows of one table is not the pairwise definition", case, key="C18:MAC:shared-storage")
 
     # ---- modal scale factor
     def msf(self, case):
